@@ -95,6 +95,59 @@ example : ∃ (i : Nat) (u : Sub), sampleState.subs[i]? = some u ∧ u.exitClose
     sampleState.closeCh = false ∧ u.delivered.map (·.val) = [8, 7] :=
   ⟨0, _, rfl, by decide, by decide, by decide⟩
 
+/-! ### Subscriber identity: ids come from a counter and are never reused -/
+
+/-- T1: what `factgen_c11` re-extracted from broadcaster.go on this run — the facts the model's id
+discipline (`subAcquire`: `id := currentID; currentID := currentID + 1`; `removeTarget`: first
+entry with that id) and buffer bound are transcribed from.  A source in which ids are not taken
+from a counter that is only ever incremented makes factgen fail (tie broken) or this theorem false. -/
+theorem source_id_discipline :
+    Kit.Generated.C11.idFromCounter = true ∧ Kit.Generated.C11.counterWrites = 1 ∧
+    Kit.Generated.C11.entryCarriesId = true ∧ Kit.Generated.C11.removalByIdFirstMatch = true ∧
+    bufferSize = 10 := by decide
+
+/-- `ids_fresh`: two different subscribers (slots) never carry the same id — in particular the id
+of a subscriber that is still subscribed is never given to a later subscriber — and every id handed
+out so far is below the counter `currentID`, which is what the next subscriber gets. -/
+theorem ids_fresh {v : Variant} {s : State} (hr : Reach v s) {i j : Nat} {u w : Sub}
+    (hi : s.subs[i]? = some u) (hj : s.subs[j]? = some w) :
+    (u.id = w.id → i = j) ∧ u.id < s.currentID := by
+  have hid := idinv_reach s hr
+  refine ⟨?_, ?_⟩
+  · intro h; rw [hid.ids i u hi, hid.ids j w hj] at h; exact h
+  · rw [hid.ids i u hi, hid.cur]; exact lt_of_getElem? hi
+
+/-- `remove_exact`: when a leaving forwarder removes "the entry with my id" from `eventChs`, the
+entry it finds is its own, and nothing else about any other subscriber changes: no subscriber that
+stays is ever removed by somebody else's departure. -/
+theorem remove_exact {v : Variant} {s s' : State} {i : Nat} (hr : Reach v s)
+    (hs : step v s (.fwdRemove i) = some s') :
+    ∃ u, s.subs[i]? = some u ∧ removeTarget s u.id = some i ∧
+      s' = setSub s i { u with inList := false, pc := .done } ∧
+      ∀ j, j ≠ i → s'.subs[j]? = s.subs[j]? := by
+  have hw := wf_reach s hr
+  have hid := idinv_reach s hr
+  obtain ⟨u, hu, hpc, _, rfl⟩ := fwdRemove_spec hw hid (by simpa [step] using hs)
+  have hin : u.inList = true := by
+    cases h : u.inList with
+    | true => rfl
+    | false => have := (hw.subs i u hu).listPc.mp h; simp [hpc] at this
+  refine ⟨u, hu, removeTarget_eq hid hu hin, rfl, ?_⟩
+  intro j hj
+  simp [setSub, List.getElem?_set, Ne.symm hj]
+
+/-- Non-vacuity: the churn schedule Subscribe A, Subscribe B, A leaves, Subscribe C, C leaves —
+C's removal (slot 2, id 2) leaves B (slot 1, id 1) in the list. -/
+def churnLabels : List Label :=
+  [.subCall, .subAcquire 0, .subCall, .subAcquire 0, .cancel 0, .fwdExitCtx 0, .fwdCloseExit 0,
+   .fwdRemove 0, .subCall, .subAcquire 0, .cancel 2, .fwdExitCtx 2, .fwdCloseExit 2]
+
+example : ∃ s s', runLabels .fixed init churnLabels = some s ∧
+    step .fixed s (.fwdRemove 2) = some s' ∧
+    (s.subs.map (·.id)) = [0, 1, 2] ∧ (s'.subs.map (·.inList)) = [false, true, false] ∧
+    s'.currentID = 3 :=
+  ⟨_, _, rfl, rfl, by decide, by decide, by decide⟩
+
 /-- The log order respects the order of `Broadcast` calls.  An entry records, at the moment
 `Broadcast` is *called*, the tickets of all `Broadcast` calls that have already *returned*
 (`retBefore := returnedT`, and `bcReturn t` puts `t` into `returnedT`).  If `a` returned before
@@ -272,7 +325,8 @@ theorem subscribe_can_complete (stalled : Nat → Bool) {s : State} {h : Nat}
   | false =>
     have hs2 : step .fixed s1 (.subAcquire k) = some
         { s1 with waitS := s1.waitS.eraseIdx k, retS := s1.retS ++ [h],
-                  subs := s1.subs ++ [Sub.new h s1.log.length] } := by
+                  subs := s1.subs ++ [Sub.new s1.currentID h s1.log.length],
+                  currentID := s1.currentID + 1 } := by
       simp only [step, subAcquire, hbc, hk2, hcl]; rfl
     exact ⟨_, p1.trans (Path.cons _ (Or.inl rfl) hs2 (Path.refl _)), by simp⟩
 
@@ -377,7 +431,7 @@ theorem close_blocked_witness :
   intro l hl
   cases l <;> simp [Label.internal] at hl <;>
     simp [step, bcAcquire, bcPush, bcSkipExit, bcSkipClose, bcSkipGone, bcFinish, subAcquire,
-      closeCas, closeChClose, closePass, he, hu, hpc, hbuf, hex, hin, hcc, hcl, hpre, bufferSize]
+      closeCas, closeChClose, closePass, he, hu, hpc, hbuf, hex, hin, hcc, hcl, hpre, bufferSize, Kit.Generated.C11.bufferSize]
   all_goals
     rename_i i
     cases i <;>
